@@ -126,6 +126,18 @@ func runDimIndex(p *Program, r *RuleResult) {
 			if s := lenOf(bo.Y); s != "" {
 				lvars = append(lvars, lvar{bo.X, s, l})
 			}
+			// a loop over a part of a collection (x[a:b]) in the interpreter: elements are left out
+			if c, ok := bo.Y.(*ssa.Call); ok {
+				if bi, ok := c.Common().Value.(*ssa.Builtin); ok && bi.Name() == "len" {
+					if sl, ok := c.Common().Args[0].(*ssa.Slice); ok && (sl.Low != nil || sl.High != nil) {
+						if _, isArr := sl.X.(*ssa.Alloc); !isArr {
+							n++
+							r.add(fnName(fn), fmt.Sprintf("loop-over-part-of-%s", displayKey(sl.X)), Violated, p.instrPos(sl),
+								fmt.Sprintf("the loop ranges over a part of %s only: the elements left out get no copy / no forward / no substitution", displayKey(sl.X)))
+						}
+					}
+				}
+			}
 		}
 		if len(lvars) == 0 {
 			continue
@@ -351,6 +363,12 @@ func runSpawnLive(p *Program, r *RuleResult) {
 			n++
 			ord++
 			construct := fmt.Sprintf("%s#%d", what, ord)
+			if sl, ok := v.(*ssa.Slice); ok && (sl.Low != nil || sl.High != nil) {
+				if _, isArr := sl.X.(*ssa.Alloc); !isArr {
+					r.add(fnName(fn), construct, Violated, pos, fmt.Sprintf("only a part (%s[…:…]) of the channels created for this step is provided by the process: the channels left out have a client but no provider", displayKey(sl.X)))
+					return
+				}
+			}
 			switch classify(v, 0, map[ssa.Value]bool{}) {
 			case "static":
 				r.add(fnName(fn), construct, Violated, pos, "a provider of the process is a name taken from a form (an identifier without a channel): nothing can ever be sent to or received from the process under that name")
